@@ -60,6 +60,19 @@ def _add_rule(wn):
     wn.add_control("verif_rule", Rule(cond, [ControlAction(p, "status", 0)], [ControlAction(p, "status", 1)], name="verif_rule"))
 
 
+
+def _absdiff_max(a, b):
+    """largest |a - b|; NaN on both sides is agreement, NaN on one side only is an infinite difference (np.nanmax alone would hide it)"""
+    import numpy as _np
+    a, b = _np.asarray(a, dtype=float), _np.asarray(b, dtype=float)
+    if a.size == 0:
+        return 0.0
+    if (_np.isnan(a) != _np.isnan(b)).any():
+        return float("inf")
+    d = _np.abs(a - b)
+    return 0.0 if _np.isnan(d).all() else float(_np.nanmax(d))
+
+
 def _run(shard, nshards):
     def run(tier, seed):
         import warnings
@@ -115,7 +128,7 @@ def _run(shard, nshards):
                         for grp, key in (("node", "head"), ("node", "demand"), ("link", "flowrate"), ("link", "status")):
                             cat = pd.concat([getattr(r1, grp)[key], getattr(r2, grp)[key]])
                             ref = getattr(full, grp)[key]
-                            d = float(np.nanmax(np.abs(cat.values.astype(float) - ref.values.astype(float))))
+                            d = _absdiff_max(cat.values, ref.values)
                             worst = max(worst, d)
                     if not ok_idx or worst > 1e-6:
                         failures.append(dict(net=rel, rule=with_rule, pause_h=pause_h, times_part1=t1[-2:], times_part2=t2[:3],
